@@ -294,7 +294,40 @@ func (rn *runner) corpusDAIndices() {
 	}
 }
 
+//  9. every field of every custom module's Params is offered garbage and boundary values; whatever
+//     the real validation accepts is the parameter set of the blocks that follow, which run
+//     through the slash epoch (1), the gauge epoch, the minute epoch and the DA deadlines
+func (rn *runner) corpusParams() {
+	rn.fresh("corpus:params")
+	if rn.dead {
+		return
+	}
+	w := rn.w
+	ctx := w.h.Ctx()
+	p, err := w.h.App.DaKeeper.Params.Get(ctx)
+	if err != nil {
+		panic(err)
+	}
+	p.SlashEpoch, p.ChallengeThreshold, p.ReplicationFactor = 1, "0.33", "5"
+	if err := w.h.App.DaKeeper.Params.Set(ctx, p); err != nil {
+		panic(err)
+	}
+	for round := 0; round < 10 && !rn.dead; round++ {
+		rn.paramFuzz(12)
+		m, _ := w.msgPublish(round%2, 3, 1)
+		w.queue("da-publish", round%2, 3_000_000, m)
+		rn.blockCase(time.Second, nil, "corpus:params:block")
+		if !rn.dead {
+			rn.blockCase(emit.Pick(rn.r, 61*time.Second, 3*time.Second), nil, "corpus:params:block")
+		}
+	}
+}
+
 func (rn *runner) corpus() {
+	rn.corpusParams()
+	if rn.dead {
+		rn.dead = false
+	}
 	rn.corpusDAIndices()
 	if rn.dead {
 		rn.dead = false
